@@ -190,3 +190,16 @@ func (m *machine) nowMs() *term {
 	}
 	return m.tf.bv(uint64(m.now/1e6), 64)
 }
+
+func init() {
+	// location changes do not change the instant
+	ident := func(m *machine, fr *frame, fn *ssa.Function, a []value) (value, bool) {
+		if !m.isSymTime(a[0]) {
+			return nil, false
+		}
+		st, _ := timeArg(a[0])
+		return st, true
+	}
+	reg("(time.Time).UTC", ident)
+	reg("(time.Time).Local", ident)
+}
